@@ -415,6 +415,7 @@ class DisjunctionMaxMatcher(UnionMatcher):
     def skip_to_quality(self, minquality):
         a = self.a
         b = self.b
+        self._id = None
 
         # Short circuit if one matcher is inactive
         if not a.is_active():
